@@ -344,6 +344,23 @@ theorem iriRefBuf_edits (es : List Edit) (w : Text) (hb : ∀ c ∈ w, c < 256)
     ∃ w', runEdits w es = some w' ∧ RE.Matches iriGB.reference w' :=
   edit_history iriGB iriGB_ok iriGB_okPath iriGB_okAuth es w (Valid.iriRef_octets w hb h) hes
 
+/-- **closed loop, URI family**: whatever `UriRefBuf::new` accepted, after any interleaving of
+edits with valid arguments the buffer is again something `UriRef::new` accepts -/
+theorem uriRefBuf_edits_accepted (es : List Edit) (w : Text) (hb : ∀ c ∈ w, c < 256)
+    (h : accepts .uriRef w = true) (hes : ∀ e ∈ es, e.Valid uriG) :
+    ∃ w', runEdits w es = some w' ∧ accepts .uriRef w' = true := by
+  obtain ⟨w', e, hv⟩ := uriRefBuf_edits es w hb h hes
+  exact ⟨w', e, Valid.uriRef_of_octets w' hv⟩
+
+/-- **closed loop, IRI family**: the buffer stays well-formed UTF-8 whose scalar values form an
+RFC 3987 `IRI-reference` — it is again something `IriRef::new` accepts (`Valid.iriRef_of_octets`:
+the octet-level grammar `iriGB` is exact) -/
+theorem iriRefBuf_edits_accepted (es : List Edit) (w : Text) (hb : ∀ c ∈ w, c < 256)
+    (h : accepts .iriRef w = true) (hes : ∀ e ∈ es, e.Valid iriGB) :
+    ∃ w', runEdits w es = some w' ∧ accepts .iriRef w' = true := by
+  obtain ⟨w', e, hv⟩ := iriRefBuf_edits es w hb h hes
+  exact ⟨w', e, Valid.iriRef_of_octets w' hv⟩
+
 /-- non-vacuity: setters and both handles in one history, run by the model -/
 example : runEdits [0x73, 0x3A, 0x2F, 0x2F, 0x68, 0x2F, 0x61]
     [.path [.push [], .pop, .pop, .push [0x62]], .auth [.port (some [0x38])], .set (.authority none),
